@@ -506,6 +506,32 @@ fn anf<'a>(
             )
         }
         LiftExpr::EBinary {
+            op: op @ (BinaryOp::And | BinaryOp::Or),
+            lhs,
+            rhs,
+            ty: _,
+        } if !matches!(*rhs, LiftExpr::EVar { .. } | LiftExpr::EPrim { .. }) => {
+            let short_circuit = |value: bool| LiftExpr::EPrim {
+                value: Prim::boolean(value),
+                ty: Ty::TBool,
+            };
+            let (then_branch, else_branch) = match op {
+                BinaryOp::And => (*rhs, short_circuit(false)),
+                _ => (short_circuit(true), *rhs),
+            };
+            anf(
+                anfenv,
+                gensym,
+                LiftExpr::EIf {
+                    cond: lhs,
+                    then_branch: Box::new(then_branch),
+                    else_branch: Box::new(else_branch),
+                    ty: e_ty,
+                },
+                k,
+            )
+        }
+        LiftExpr::EBinary {
             op,
             lhs,
             rhs,
